@@ -18,7 +18,7 @@
    mention plainly named atoms only (not theory atoms of an earlier step); theory atoms do not occur in weighted literal lists
    (lit=weight directly behind a theory atom reads as a guard).  Everything outside is covered by correspondence + oracle only. *)
 Require Import V.Lib.Base V.Lib.Calls V.Gen.Consts_C06 V.C06.Model V.C06.RefParse V.C06.Spec V.C06.ProofsLex V.C06.ProofsTerm V.C06.ProofsTheory
-               V.C06.ProofsStep V.C06.ProofsCheck.
+               V.C06.ProofsStep V.C06.ProofsCheck V.C06.ProofsReuse.
 Local Open Scope Z_scope.
 
 (* Parse-back.  s: any state with a readable name table and an empty buffer (every state reached by such steps, see the last two
@@ -63,6 +63,27 @@ Theorem c06_total : forall inc steps,
   fst (run_calls init_st (program_calls inc steps)) = 0.
 Proof. exact program_total. Qed.
 Print Assumptions c06_total.
+
+(* RE-USE of the writer (model of the code after the repair 537d726).  initProgram on a writer in ANY state s - in the middle of a step,
+   after an incremental program that left theory atoms behind, after an exception - gives the state of a NEW writer's initProgram with the
+   bytes already written in front; and the calls cs of the second program then yield the same status (ok / logic_error / fault) and
+   append exactly the text a new writer would have written for them: nothing of the first program is visible in the second. *)
+Theorem c06_second_program_like_fresh : forall s inc cs,
+  let s1 := snd (do_call s (CInit inc)) in
+  let f := run_calls (snd (do_call init_st (CInit inc))) cs in
+  fst (run_calls s1 cs) = fst f /\ out (snd (run_calls s1 cs)) = out s ++ out (snd f) /\
+  snd (run_calls s1 cs) = pre (out s) (snd f).
+Proof. exact second_program_like_fresh. Qed.
+Print Assumptions c06_second_program_like_fresh.
+
+(* the history that failed before the repair: an incremental program with a theory atom on atom 1, then the fact x_1 through the same writer *)
+Example c06_reuse_example :
+  let p1 := [CInit true; CBegin; CTSym 0 [97]; CTNum 1 7; CTElem 0 [1] [2; -3]; CTAtom 1 0 [0]; CEnd] in
+  let p2 := [CBegin; CRule 0 [1] []; CEnd] in
+  let s := snd (run_calls init_st p1) in
+  tatoms s <> [] /\
+  out (snd (run_calls s (CInit false :: p2))) = out s ++ [120; 95; 49; 46; 10].
+Proof. split; [vm_compute; discriminate | vm_compute; reflexivity]. Qed.
 
 (* The fuel of the model's term printer is sufficient: a referentially consistent acyclic term (some fuel h unfolds it) is unfolded
    with |terms|+1 units (longest path in a DAG with |terms| nodes), and what is printed is the canonical spelling of its structure. *)
